@@ -40,7 +40,7 @@ ASSUMPTIONS = [
 
 SELECTABLE = ("grid1d", "grid2d", "grid3d", "oned", "periodic0", "periodic0_1d")
 KINDS = ("grid1d", "grid2d", "grid3d", "oned", "angular", "atom", "mol", "tensor", "uniform",
-         "local", "periodic0", "periodic0_1d", "atom-rot-r0", "mol-stored", "tensor2d", "uniform2d")
+         "local", "periodic0", "periodic0_1d", "atom-rot-r0", "mol-stored", "tensor2d", "uniform2d", "grid3d-far")
 # 5.0 exceeds the extent of every test grid but not the distance of the far centre (an empty
 # sphere that is wider than the grid), 1e3 swallows everything
 RADII = (0.0, 1e-9, 0.9, 5.0, 1e3, float("inf"))
@@ -71,6 +71,9 @@ def make_grid(kind, seed):
             return Grid(rng.uniform(-1.5, 1.5, (14, 2)), rng.uniform(0.1, 1, 14))
         if kind == "grid3d":
             return Grid(rng.uniform(-1.5, 1.5, (16, 3)), rng.uniform(0.1, 1, 16))
+        if kind == "grid3d-far":
+            # the same kind of point cloud 1e5 bohr from the origin: distances must come from coordinate differences
+            return Grid(rng.uniform(-1.5, 1.5, (16, 3)) + np.array([131072.0, -65536.0, 32768.0]), rng.uniform(0.1, 1, 16))
         if kind == "oned":
             return GaussLegendre(9)
         if kind == "angular":
